@@ -21,8 +21,8 @@ from vt.oracles import constraint_semantics as CS
 
 ID = 'C06'
 TIERS = {
-    'quick': dict(shards=16, cases=700, watchdog_s=900),
-    'thorough': dict(shards=16, cases=20000, watchdog_s=7000),
+    'quick': dict(shards=16, cases=700, wide_frames=3, watchdog_s=900),
+    'thorough': dict(shards=16, cases=20000, wide_frames=40, watchdog_s=7000),
 }
 RULE = ('case = frame (1-4 columns, 1-60 rows, plain field names) + boundary-derived constraint set + epsilon + option '
         'subset + output format + stale-file history + index labels {default, permuted, offset, reversed, repeated}; 2 runs of tdda per case (verify, detect). Non-trivial = at least '
@@ -32,7 +32,7 @@ ASSUMPTIONS = [
     'field names are plain (collisions with generated column names such as a_min_ok / n_failures are outside the property)',
     'rows in an output file are identified through the Index column or the full set of original fields when present; otherwise only their number and the multiset of n_failures are compared',
 ]
-REQUIRED_MONITORS = ['file:row_numbers_compared', 'verdicts:compared', 'rows:flags_compared', 'rows:n_failures_compared', 'file:exists_iff_failed',
+REQUIRED_MONITORS = ['frames:wide_many_failures_per_record', 'file:row_numbers_compared', 'verdicts:compared', 'rows:flags_compared', 'rows:n_failures_compared', 'file:exists_iff_failed',
                      'file:content_compared', 'input:unchanged_checked', 'partition:checked', 'history:stale_file',
                      'reach:write_detected_records']
 REQUIRED_CLASSES = ['index=custom', 'index=repeated_labels', 'fmt=none', 'fmt=csv', 'fmt=parquet', 'per_constraint=1', 'write_all=1', 'in_place=1',
@@ -92,6 +92,23 @@ def gen_case(rng, i):
     return {'spec': spec, 'cset': cset, 'epsilon': rng.choice([None, 0, 0.01, 0.5]), 'opts': opts, 'fmt': fmt,
             'type_checking': rng.choice([None, None, 'strict', 'sloppy']),
             'stale': rng.choice([None, None, 'earlier-run', 'unrelated']) if fmt else None}
+
+
+def wide_case(rng, i):
+    """Many columns, each with constraints that one record breaks: that record's failure count runs into the hundreds
+    (beyond what a narrow integer would hold), another record fails a handful, the last none."""
+    ncols = rng.choice([43, 64, 65, 128, 130, 260])
+    cols, fields = [], {}
+    few = set(rng.sample(range(ncols), 3))
+    for j in range(ncols):
+        name = 'w%03d' % j
+        cols.append({'name': name, 'kind': 'int64', 'values': [5, 5 if j in few else 0, 0], 'nulls': 'none'})
+        fields[name] = {'type': 'int', 'max': 0, 'sign': 'non-positive'} if j % 3 else {'type': 'int', 'max': 0, 'sign': 'non-positive', 'max_nulls': 0, 'min': 1}
+    fmt = [None, 'csv', 'parquet'][i % 3]
+    opts = {'per_constraint': rng.random() < 0.5, 'write_all': rng.random() < 0.35, 'output_fields': rng.choice([None, [], ['w000', 'w001']]),
+            'index': rng.random() < 0.4, 'in_place': rng.random() < 0.25, 'interleave': rng.random() < 0.25,
+            'boolean_ints': rng.random() < 0.3, 'rownumber_is_index': True}
+    return {'spec': {'cols': cols, 'nrows': 3}, 'cset': {'fields': fields}, 'epsilon': None, 'opts': opts, 'fmt': fmt, 'type_checking': None, 'stale': None}
 
 
 def build(spec):
@@ -355,6 +372,9 @@ def run_case(ctx, case):
 
 
 def run_shard(ctx):
+    for i in range(ctx.params.get('wide_frames', 2)):
+        run_case(ctx, wide_case(ctx.rng, i + ctx.shard))
+        ctx.rec.event('frames:wide_many_failures_per_record')
     for i in range(ctx.params['cases']):
         run_case(ctx, gen_case(ctx.rng, i))
     for k, v in _counter.items():
